@@ -155,11 +155,18 @@ fn expr_cands(e: &Expr, emit: &mut dyn FnMut(Expr)) {
 pub fn minimize(start: &BlockStmt, fails: &mut dyn FnMut(&BlockStmt) -> bool, max_tests: usize) -> BlockStmt {
     let mut cur = start.clone();
     let mut tests = 0;
+    // U1: a reduced program must still end with an expression statement if the original did,
+    // otherwise a metamorphic check could fail for a reason the documentation does not fix
+    let ends_with_expr = |p: &BlockStmt| matches!(p.last(), Some(Stmt::Expr(_)));
+    let keep_u1 = ends_with_expr(start);
     loop {
         let mut progressed = false;
         let size = size_block(&cur);
         for c in candidates(&cur) {
             if size_block(&c) >= size && format!("{c:?}").len() >= format!("{cur:?}").len() {
+                continue;
+            }
+            if keep_u1 && !ends_with_expr(&c) {
                 continue;
             }
             tests += 1;
